@@ -30,6 +30,19 @@ pub fn case_keys(scheme: &str, rng: &mut Rng) -> (Vec<Vec<u8>>, Kind) {
     )
 }
 
+/// the independent key behind a case secret
+pub fn ind_of(scheme: &str, secret: &[u8]) -> IndKey {
+    match scheme {
+        "comb" => IndKey {
+            kind: if secret[0] == 0 { Kind::Secp } else { Kind::Ed },
+            sk: secret[1..].to_vec(),
+        },
+        "ed" => IndKey { kind: Kind::Ed, sk: secret.to_vec() },
+        "toy" => IndKey { kind: Kind::Toy, sk: secret.to_vec() },
+        _ => IndKey { kind: Kind::Secp, sk: secret.to_vec() },
+    }
+}
+
 pub fn rand_ip4(rng: &mut Rng) -> Vec<u8> {
     match rng.below(5) {
         0 => vec![0, 0, 0, 0],
@@ -40,7 +53,28 @@ pub fn rand_ip4(rng: &mut Rng) -> Vec<u8> {
 }
 
 pub fn rand_ip6(rng: &mut Rng) -> Vec<u8> {
-    match rng.below(5) {
+    match rng.below(8) {
+        5 => {
+            // IPv4-mapped ::ffff:a.b.c.d
+            let mut v = vec![0; 16];
+            v[10] = 0xff;
+            v[11] = 0xff;
+            v[12..].copy_from_slice(&rng.bytes(4));
+            v
+        }
+        6 => {
+            // IPv4-compatible ::a.b.c.d
+            let mut v = vec![0; 16];
+            v[12..].copy_from_slice(&rng.bytes(4));
+            v
+        }
+        7 => {
+            // 6to4 / documentation prefixes
+            let mut v = rng.bytes(16);
+            v[0] = 0x20;
+            v[1] = 0x02;
+            v
+        }
         0 => vec![0; 16],
         1 => vec![0xff; 16],
         2 => {
@@ -277,6 +311,13 @@ pub fn rep_steps(valid_pub: &[Vec<u8>], small: bool) -> Vec<String> {
         "step op=remove_insert rm=- ins=746370:0050".into(),
         "step op=set_public_key pk=0".into(),
         "step op=set_public_key pk=1".into(),
+        "step op=set_udp_socket ip=00000000000000000000ffffc0000201 port=9000".into(),
+        "step op=set_tcp_socket ip=00000000000000000000ffff7f000001 port=65535".into(),
+        "step op=set_ip ip=00000000000000000000ffff0a000001".into(),
+        "step op=insert_raw key=6964 raw=82763400".into(),
+        "step op=insert_raw key=6964 raw=8276348269708401020304".into(),
+        "step op=insert_raw key=746370 raw=82765f82765f".into(),
+        "step op=insert_raw key=6970 raw=840a000001840a000002".into(),
     ];
     if !small {
         v.extend(
@@ -484,6 +525,66 @@ pub fn gen_size(schemes: &[&str], rng: &mut Rng, thorough: bool, cases: &mut Vec
                 }
             }
         }
+        // the same sweep with a 56-byte key in the record (two-byte key header)
+        for &seq in &seqs[..seqs.len().min(3)] {
+            for &pad in &range {
+                let pad = (pad + 64).saturating_sub(sl.min(64 + pad)).saturating_sub(58);
+                for (si, st) in steps.iter().enumerate() {
+                    if (pad + si + seq as usize) % (if thorough { 2 } else { 5 }) != 0 {
+                        continue;
+                    }
+                    let mut c = Case::new("size", scheme, id, "longkey");
+                    id += 1;
+                    c.keys = keys.clone();
+                    c.lines.push(format!(
+                        "init kind=build calls=seq:{seq};raw:{}:{};tcp4:80 signer=0",
+                        hx(&vec![0x6b; 56]),
+                        hx(&rlp_bytes(&vec![0x61; pad]))
+                    ));
+                    c.lines.push(with_signer(st, 0, false));
+                    c.lines.push(with_signer("step op=set_seq seq=18446744073709551615", 0, false));
+                    cases.push(c);
+                }
+            }
+        }
+        // decoded records that carry the 65-byte uncompressed public key: every update replaces it by
+        // the 33-byte form, so results are 32 bytes smaller than the record suggests
+        let k0 = ind_of(scheme, &keys[0]);
+        if k0.kind == Kind::Secp {
+            let un = {
+                let k = enr::k256::ecdsa::SigningKey::from_slice(&k0.sk).unwrap();
+                k.verifying_key().to_encoded_point(false).as_bytes().to_vec()
+            };
+            for &seq in &seqs[..seqs.len().min(3)] {
+                for pad in (if thorough { 100..=180usize } else { 120..=170usize }) {
+                    let mut spec = crate::gen_dec::Spec::new(
+                        seq,
+                        vec![(b"pad".to_vec(), rlp_bytes(&vec![0x61; pad]))],
+                        k0.clone(),
+                    );
+                    for it in spec.items.iter_mut() {
+                        if it.0 == rlp_bytes(b"secp256k1") {
+                            it.1 = rlp_bytes(&un);
+                        }
+                    }
+                    let buf = spec.encode(false);
+                    if buf.len() > 300 || buf.len() < 280 {
+                        continue;
+                    }
+                    for (si, st) in steps.iter().enumerate() {
+                        if !thorough && (pad + si) % 4 != 0 {
+                            continue;
+                        }
+                        let mut c = Case::new("size", scheme, id, "uncompressed-key");
+                        id += 1;
+                        c.keys = keys.clone();
+                        c.lines.push(format!("init kind=decode buf={}", hx(&buf)));
+                        c.lines.push(with_signer(st, 0, false));
+                        cases.push(c);
+                    }
+                }
+            }
+        }
         // builder near the limit (total = content + sig + framing)
         for pad in 150..=230usize {
             let pad = (pad + 64).saturating_sub(sl.min(64 + pad));
@@ -548,13 +649,25 @@ pub fn gen_acc(schemes: &[&str], rng: &mut Rng, thorough: bool, cases: &mut Vec<
             cases.push(c);
         }
         // all 64 presence combinations of the six address/port keys
-        for mask in 0..64u64 {
+        for mask in 0..128u64 {
             let mut calls = Vec::new();
             if mask & 1 != 0 {
-                calls.push(format!("ip4:{}", hx(&rand_ip4(rng))));
+                calls.push(format!("{}:{}", if mask & 64 == 0 { "ip4" } else { "ip" }, hx(&rand_ip4(rng))));
             }
             if mask & 2 != 0 {
-                calls.push(format!("ip6:{}", hx(&rand_ip6(rng))));
+                calls.push(format!("{}:{}", if mask & 64 == 0 { "ip6" } else { "ip" }, hx(&rand_ip6(rng))));
+            }
+            if mask % 5 == 0 {
+                calls.push(format!(
+                    "client:{}:{}:{}",
+                    hx(&ascii_word(rng)),
+                    hx(&ascii_word(rng)),
+                    if mask % 2 == 0 { "none".to_string() } else { hx(&ascii_word(rng)) }
+                ));
+            }
+            if mask % 7 == 0 {
+                calls.push(format!("bytes:{}:{}", hx(&rand_key(rng)), hx(&rand_plain(rng))));
+                calls.push(format!("uint:{}:{}", hx(b"num"), rng.next() >> rng.below(64)));
             }
             if mask & 4 != 0 {
                 calls.push(format!("tcp4:{}", rand_port(rng)));
@@ -706,6 +819,24 @@ pub fn gen_eq(schemes: &[&str], rng: &mut Rng, thorough: bool, cases: &mut Vec<C
             c.lines.push(with_signer("step op=insert key=6a vt=bytes val=03", 0, false));
             c.lines.push(with_signer("step op=set_seq seq=7", 0, false));
             c.lines.push("step op=cmp slot=b".into());
+            // the boundary between a key and its value moves: "a" -> "xy" becomes 61 82 78 -> "y";
+            // the flat byte streams of the two contents are identical, the pairs are not
+            c.lines.push("step op=load slot=b".into());
+            c.lines.push(with_signer("step op=insert_raw key=61 raw=827879", 0, false));
+            c.lines.push(with_signer("step op=set_seq seq=7", 0, false));
+            c.lines.push("step op=snap slot=e".into());
+            c.lines.push(with_signer("step op=remove_insert rm=61 ins=618278:79", 0, false));
+            c.lines.push(with_signer("step op=set_seq seq=7", 0, false));
+            c.lines.push("step op=cmp slot=e".into());
+            // two pairs whose concatenation is the same: ("a"->"b", "cd"->v) vs ("ab"->"c", "d"->v)
+            c.lines.push("step op=load slot=b".into());
+            c.lines.push(with_signer("step op=remove_insert rm=- ins=61:62,6364:0102", 0, false));
+            c.lines.push(with_signer("step op=set_seq seq=7", 0, false));
+            c.lines.push("step op=snap slot=f".into());
+            c.lines.push("step op=load slot=b".into());
+            c.lines.push(with_signer("step op=remove_insert rm=- ins=6162:63,64:0102", 0, false));
+            c.lines.push(with_signer("step op=set_seq seq=7", 0, false));
+            c.lines.push("step op=cmp slot=f".into());
             // re-keying
             c.lines.push("step op=load slot=b".into());
             c.lines.push(with_signer("step op=set_seq seq=7", 1, false));
@@ -717,5 +848,64 @@ pub fn gen_eq(schemes: &[&str], rng: &mut Rng, thorough: bool, cases: &mut Vec<C
             c.lines.push("step op=cmp slot=a".into());
             cases.push(c);
         }
+    }
+}
+
+/// a list nested `depth` levels deep around an empty list, built in linear time
+pub fn deep_list(depth: usize) -> Vec<u8> {
+    let mut hdrs: Vec<Vec<u8>> = Vec::with_capacity(depth);
+    let mut len = 1usize; // the innermost c0
+    for _ in 0..depth {
+        let h = rlp_header(true, len);
+        len += h.len();
+        hdrs.push(h);
+    }
+    let mut out = Vec::with_capacity(len);
+    for h in hdrs.iter().rev() {
+        out.extend_from_slice(h);
+    }
+    out.push(0xc0);
+    out
+}
+
+/// the `deep` family: values and buffers whose *shape* (not size limit) stresses recursion:
+/// extremely deeply nested lists handed to the raw entry points, the builder and the decoders.
+/// A process abort (stack overflow) while executing one of these cases is detected by the caller.
+pub fn gen_deep(schemes: &[&str], rng: &mut Rng, thorough: bool, cases: &mut Vec<Case>) {
+    let mut id = 0u64;
+    let depths: &[usize] = if thorough { &[60, 70, 1000, 100_000, 1_000_000] } else { &[60, 70, 1000, 200_000] };
+    for scheme in schemes {
+        let (keys, _) = case_keys(scheme, rng);
+        for &d in depths {
+            let v = deep_list(d);
+            let mut c = Case::new("deep", scheme, id, &format!("insert-depth{d}"));
+            id += 1;
+            c.keys = keys.clone();
+            c.lines.push("init kind=build calls=- signer=0".into());
+            c.lines.push(with_signer(&format!("step op=insert_raw key=6e657374 raw={}", hx(&v)), 0, false));
+            c.lines.push(with_signer(&format!("step op=insert_raw key=6970 raw={}", hx(&v)), 0, false));
+            c.lines.push(with_signer(&format!("step op=remove_insert rm=- ins=6e657374:{}", hx(&v[..v.len().min(4000)])), 0, false));
+            cases.push(c);
+            let mut c = Case::new("deep", scheme, id, &format!("build-depth{d}"));
+            id += 1;
+            c.keys = keys.clone();
+            c.lines.push(format!("init kind=build calls=raw:6e657374:{} signer=0", hx(&v)));
+            cases.push(c);
+            // a buffer that starts like a record and is deeply nested
+            let mut c = Case::new("deep", scheme, id, &format!("decode-depth{d}"));
+            id += 1;
+            c.keys = keys.clone();
+            c.lines.push(format!("init kind=decode buf={}", hx(&v)));
+            cases.push(c);
+        }
+        // within the size limit: a 250-byte value nested as deep as it can be
+        let v = deep_list(120);
+        let mut c = Case::new("deep", scheme, id, "insert-depth120-fits");
+        id += 1;
+        c.keys = keys.clone();
+        c.lines.push("init kind=build calls=- signer=0".into());
+        c.lines.push(with_signer(&format!("step op=insert_raw key=6e657374 raw={}", hx(&v)), 0, false));
+        c.lines.push("step op=redecode".into());
+        cases.push(c);
     }
 }
